@@ -562,7 +562,11 @@ func (r *ReadingOrderResult) GetParagraphs() *ParagraphLayout {
 	// For single-column or no sections, use simple detection
 	if len(r.Sections) <= 1 {
 		paraDetector := NewParagraphDetector()
-		return paraDetector.Detect(r.Lines, r.PageWidth, r.PageHeight)
+		result := paraDetector.Detect(r.Lines, r.PageWidth, r.PageHeight)
+		if len(r.Sections) == 1 {
+			paragraphsToPageCoordinates(result.Paragraphs, r.Sections[0])
+		}
+		return result
 	}
 
 	// For multi-column, detect paragraphs within each section separately
@@ -578,6 +582,8 @@ func (r *ReadingOrderResult) GetParagraphs() *ParagraphLayout {
 
 		// Detect paragraphs within this section
 		sectionLayout := paraDetector.Detect(section.Lines, section.BBox.Width, r.PageHeight)
+
+		paragraphsToPageCoordinates(sectionLayout.Paragraphs, section)
 
 		// Add paragraphs from this section
 		for i := 0; i < sectionLayout.ParagraphCount(); i++ {
@@ -602,6 +608,20 @@ func (r *ReadingOrderResult) GetParagraphs() *ParagraphLayout {
 		PageWidth:               r.PageWidth,
 		PageHeight:              r.PageHeight,
 		AverageParagraphSpacing: avgSpacing,
+	}
+}
+
+// paragraphsToPageCoordinates moves the bounding boxes of paragraphs detected in a
+// column section back to page coordinates. The lines of a column section carry X
+// positions relative to the column's left edge (see normalizeLineXPositions);
+// headings and lists are located in page coordinates, and the two are matched by
+// bounding box when the page elements are assembled.
+func paragraphsToPageCoordinates(paragraphs []Paragraph, section ReadingSection) {
+	if section.Type != SectionColumn {
+		return
+	}
+	for i := range paragraphs {
+		paragraphs[i].BBox.X += section.BBox.X
 	}
 }
 
